@@ -175,9 +175,13 @@ func genC17(r *rand.Rand, t *Trace, thorough bool) {
 				h := nextH
 				nextH++
 				out, err := exec.Command(self, "lockprobe", dir, "0").Output()
-				code := 2
+				code := -1
 				if err == nil {
 					fmt.Sscanf(strings.TrimSpace(string(out)), "%d", &code)
+				}
+				if code < 0 {
+					t.Stat("lock.other_process_unavailable") // the helper process could not be run: nothing observed
+					continue
 				}
 				la := lockExists(dir)
 				ops = append(ops, func(c *Case) { c.N(6).N(h).N(code).B(la) })
